@@ -85,20 +85,22 @@ theorem catLoop_skip (m : Mode) (p : Prov) (hcs : 4 ≤ p.cs) (cat : Nat) (fuel 
           (calls + 1) := by
   obtain ⟨ht, hl⟩ := header_words p hcs wa c hc rest hh
   have hb := hc.2.1
-  unfold catLoop
   have hstep : catStep m cat (chunkAt p wa) wa ne
       = (.ok (.next (wa + 2 + c.body.length / 2) (ne + (if c.body.length / 2 = 0 then 1 else 0))), 0) := by
     unfold catStep
     rw [if_neg (by omega), if_neg (by simp; omega), ht, hl]
-    have hne' : (if c.body.length / 2 = 0 then ne + 1 else ne) = ne + (if c.body.length / 2 = 0 then 1 else 0) := by
-      split <;> rfl
-    rw [hne']
+    dsimp only
+    generalize hx : (if c.body.length / 2 = 0 then ne + 1 else ne) = x
+    have hx' : x = ne + (if c.body.length / 2 = 0 then 1 else 0) := by rw [← hx]; split <;> rfl
     rw [if_neg (by simp only [Gen.Eeprom.EMPTY_CATEGORY_LIMIT]; omega)]
-    rw [mul16_ok _ _ _ _ (by omega)]
-    simp only [bind_ret]
-    rw [if_neg hcat, if_neg hend, add16_ok _ _ _ _ (by omega)]
-    simp [ret]
+    rw [mul16_ok _ _ _ _ (by omega), bind_ret]
+    rw [if_neg hcat, if_neg hend, add16_ok _ _ _ _ (by omega), bind_ret, hx']
+    rfl
+  generalize hR : catLoop m p cat fuel (wa + 2 + c.body.length / 2)
+    (ne + (if c.body.length / 2 = 0 then 1 else 0)) (calls + 1) = R
+  unfold catLoop
   rw [hstep]
+  exact hR
 
 /-- The iteration that finds the category searched for. -/
 theorem catLoop_found (m : Mode) (p : Prov) (hcs : 4 ≤ p.cs) (cat : Nat) (fuel wa ne calls : Nat) (c : Cat)
@@ -109,24 +111,26 @@ theorem catLoop_found (m : Mode) (p : Prov) (hcs : 4 ≤ p.cs) (cat : Nat) (fuel
       = (.ok (some ⟨2 * wa + 4, 2 * wa + 4 + c.body.length⟩), calls + 1) := by
   obtain ⟨ht, hl⟩ := header_words p hcs wa c hc rest hh
   have hb := hc.2.1
-  unfold catLoop
   have hstep : catStep m cat (chunkAt p wa) wa ne
       = (.ok (.done (some ⟨2 * wa + 4, 2 * wa + 4 + c.body.length⟩)), 0) := by
     unfold catStep
     rw [if_neg (by omega), if_neg (by simp; omega), ht, hl]
-    have hne' : (if c.body.length / 2 = 0 then ne + 1 else ne) = ne + (if c.body.length / 2 = 0 then 1 else 0) := by
-      split <;> rfl
-    rw [hne']
+    dsimp only
+    generalize hx : (if c.body.length / 2 = 0 then ne + 1 else ne) = x
+    have hx' : x = ne + (if c.body.length / 2 = 0 then 1 else 0) := by rw [← hx]; split <;> rfl
     rw [if_neg (by simp only [Gen.Eeprom.EMPTY_CATEGORY_LIMIT]; omega)]
-    rw [mul16_ok _ _ _ _ (by omega)]
-    simp only [bind_ret]
+    rw [mul16_ok _ _ _ _ (by omega), bind_ret]
     rw [if_pos hcat]
     unfold Range.new
     rw [mul16_ok _ _ _ _ (by omega), mul16_ok _ _ _ _ (by omega)]
     simp only [bind_ret]
     rw [add16_ok _ _ _ _ (by omega)]
-    simp only [bind_ret, ret]
-    congr 4 <;> omega
+    simp only [bind_ret]
+    have e : (⟨(wa + 2) * 2, (wa + 2) * 2 + c.body.length / 2 * 2⟩ : Range)
+        = ⟨2 * wa + 4, 2 * wa + 4 + c.body.length⟩ := by
+      congr 1 <;> omega
+    rw [e]; rfl
+  unfold catLoop
   rw [hstep]
 
 /-- The iteration that reads the End marker. -/
@@ -138,20 +142,20 @@ theorem catLoop_end (m : Mode) (p : Prov) (hcs : 4 ≤ p.cs) (cat : Nat) (fuel w
   simp at g0 g1
   obtain ⟨h1, _⟩ := chunk_rd16 p hcs wa
   have ht : catOf (rd16 (chunkAt p wa)) = Gen.Eeprom.CAT_END := by rw [h1, g0, g1]; decide
-  unfold catLoop
-  have hstep : (catStep m cat (chunkAt p wa) wa ne).1 = .ok (.done none) ∧ (catStep m cat (chunkAt p wa) wa ne).2 = 0 := by
+  have hstep : (catStep m cat (chunkAt p wa) wa ne).1 = .ok (.done none) := by
     unfold catStep
     rw [if_neg (by omega), if_neg (by simp; omega)]
-    split
-    · exact ⟨rfl, rfl⟩
-    · rw [mul16_ok _ _ _ _ (by omega)]
-      simp only [bind_ret]
-      rw [ht, if_neg (fun h => hcat h.symm), if_pos rfl]
-      exact ⟨rfl, rfl⟩
+    dsimp only
+    generalize (if rd16 (List.drop 2 (chunkAt p wa)) = 0 then ne + 1 else ne) = x
+    by_cases hlim : x ≥ Gen.Eeprom.EMPTY_CATEGORY_LIMIT
+    · rw [if_pos hlim]; rfl
+    · rw [if_neg hlim, mul16_ok _ _ _ _ (by omega), bind_ret, ht, if_neg (fun h => hcat h.symm), if_pos rfl]
+      rfl
+  unfold catLoop
   generalize catStep m cat (chunkAt p wa) wa ne = st at hstep
   obtain ⟨o, c⟩ := st
   simp only at hstep
-  rw [hstep.1]
+  rw [hstep]
 
 theorem encCats_length_ge (cs : List Cat) : 4 * cs.length ≤ (encCats cs).length := by
   induction cs with
